@@ -70,3 +70,63 @@ Section Type1.
 End Type1.
 Print Assumptions finalize1_ok_implies.
 Print Assumptions finalize1_ok_implies_valid_bound.
+
+(** ** all four types, over the BYTE-LEVEL finalization models that are executed against the code
+    (Model/Frontends.v fin1, fin2, fin3, fin5: every slice expression and length check of the Go functions, with the
+    cryptographic steps as ARBITRARY functions).  [tok_input ty nonce ctx keyid] is the request's token input. *)
+From PatVerif Require Import Model.Frontends Proofs.FinalizeP.
+
+(** type 2 — unconditional: an output token passed RSA-PSS verification under the pinned key over its own input,
+    and that input, nonce, challenge digest and key id are the request's *)
+Theorem fin2_ok_implies : forall rsa_finalize pss_ok ty nonce ctx keyid resp t,
+  ty < 65536 -> length nonce = 32%nat -> length ctx = 32%nat -> length keyid = 32%nat ->
+  fin2 rsa_finalize pss_ok (tok_input ty nonce ctx keyid) resp = Ok t ->
+  pss_ok (auth_input t) (t_auth t) = true /\ auth_input t = tok_input ty nonce ctx keyid /\
+  t_nonce t = nonce /\ t_ctx t = ctx /\ t_keyid t = keyid /\ t_type t = ty /\ length (t_auth t) = 256%nat.
+Proof. exact fin2_ok_implies_l. Qed.
+Print Assumptions fin2_ok_implies.
+
+(** type 3 — unconditional: additionally the response decrypted under the key derived from the request's own HPKE
+    context (salt = encapsulated key || response nonce) *)
+Theorem fin3_ok_implies : forall aead_open rsa_finalize pss_ok encap ty nonce ctx keyid resp t,
+  ty < 65536 -> length nonce = 32%nat -> length ctx = 32%nat -> length keyid = 32%nat ->
+  fin3 aead_open rsa_finalize pss_ok encap (tok_input ty nonce ctx keyid) resp = Ok t ->
+  (16 <= length resp)%nat /\
+  (exists bs, aead_open (encap ++ firstn 16 resp) (skipn 16 resp) = Some bs) /\
+  pss_ok (auth_input t) (t_auth t) = true /\ auth_input t = tok_input ty nonce ctx keyid /\
+  t_nonce t = nonce /\ t_ctx t = ctx /\ t_keyid t = keyid /\ t_type t = ty.
+Proof. exact fin3_ok_implies_l. Qed.
+Print Assumptions fin3_ok_implies.
+
+(** type 1 — the token is built from exactly what the verifiable-OPRF client's Finalize returned for (element,
+    proof) = (first 49 bytes, rest), and carries the request's fields *)
+Theorem fin1_ok_implies : forall elt_ok proof_ok finalize ty nonce ctx keyid resp t,
+  ty < 65536 -> length nonce = 32%nat -> length ctx = 32%nat -> length keyid = 32%nat ->
+  fin1 elt_ok proof_ok finalize (tok_input ty nonce ctx keyid) resp = Ok t ->
+  (49 <= length resp)%nat /\
+  exists out, finalize (firstn 49 resp) (skipn 49 resp) = Some out /\ (exists tl, out = t_auth t ++ tl) /\
+              length (t_auth t) = 48%nat /\ auth_input t = tok_input ty nonce ctx keyid /\
+              t_nonce t = nonce /\ t_ctx t = ctx /\ t_keyid t = keyid /\ t_type t = ty.
+Proof. exact fin1_ok_implies_l. Qed.
+Print Assumptions fin1_ok_implies.
+
+(** type 5 — batch_count: success means exactly one token per requested nonce (the element count was checked
+    against the number of requested tokens), all from ONE accepted (elements, proof) pair ... *)
+Theorem fin5_count : forall elt_ok proof_ok finalize inputs resp toks a,
+  fin5 elt_ok proof_ok finalize inputs resp = Ok (toks, a) ->
+  length toks = length inputs /\
+  exists elems pf outs, finalize elems pf = Some outs /\ length outs = length inputs /\ length elems = length inputs /\
+    Forall2 (fun io t => dec_token 64 (fst io ++ snd io) = Some t) (combine inputs outs) toks.
+Proof. exact fin5_ok_implies_l. Qed.
+Print Assumptions fin5_count.
+
+(** ... and token i is bound to nonce i (so dropping, duplicating or reordering elements can only lead to an error
+    or to tokens that are still each bound to their own nonce — never to a token for another nonce) *)
+Theorem fin5_binding : forall elt_ok proof_ok finalize nonces ctx keyid resp toks a,
+  Forall (fun n => length n = 32%nat) nonces -> length ctx = 32%nat -> length keyid = 32%nat ->
+  fin5 elt_ok proof_ok finalize (map (fun n => tok_input 5 n ctx keyid) nonces) resp = Ok (toks, a) ->
+  length toks = length nonces /\
+  forall i n t, nth_error nonces i = Some n -> nth_error toks i = Some t ->
+    t_nonce t = n /\ t_ctx t = ctx /\ t_keyid t = keyid /\ t_type t = 5 /\ length (t_auth t) = 64%nat.
+Proof. exact fin5_binding_l. Qed.
+Print Assumptions fin5_binding.
